@@ -31,7 +31,7 @@ pub trait Parse: Sized {
     // the value encoded at the front of `body` (all three implementations consume exactly 4 bytes)
     spec fn spec_parse(body: Seq<u8>) -> Option<Self>;
 
-//@fn rodbus/src/common/traits.rs | trait Parse::parse | tags=C01,C02,C04
+//@fn rodbus/src/common/traits.rs | trait Parse::parse | tags=C01,C02,C04,C07
 //@|    requires old(cursor).wf(),
 //@|    ensures final(cursor).wf(), final(cursor).input == old(cursor).input,
 //@|        r is Ok <==> Self::spec_parse(old(cursor).rest()) is Some,
